@@ -444,3 +444,91 @@ PROPS["C18"] = {
 }
 
 NOT_CLAIMED = {}
+
+
+# ---- after the proof-deepening round: what the added theorems say, and what is still open -----------------------
+def _upd(pid, add_text, note_old=None, note_new=None):
+    p = PROPS[pid]
+    p["level_text"] = p["level_text"] + " " + add_text
+    if note_old is not None:
+        assert note_old in p["level_note"], (pid, note_old)
+        p["level_note"] = p["level_note"].replace(note_old, note_new)
+
+
+_upd("C02", "Proved for all inputs (Props/C02, 21 theorems): a request head, a fixed or chunked body, a trailer section and a client "
+     "response head that parsed to a verdict other than need-more parse to the same verdict with the same consumed length when bytes are "
+     "appended (head_prefix_stable, body_prefix_stable, trailer_prefix_stable, resp_head_prefix_stable); hence 'parse what is buffered, on "
+     "need-more read and parse again' equals parsing the whole for every segmentation (retry_eq_whole_segments, "
+     "client_read_segmentation_invariant); handled requests are never revised by later bytes (served_prefix_stable).",
+     "Client-side (response) segmentation is covered under C11.",
+     "The in-place edits the real scanner makes in the connection buffer are not part of the model: on the request side they are shown "
+     "irrelevant (needMore_after_precheck_never_ok), on the client side re-scanning after edits is covered by the split runs only (this is "
+     "where two repaired defects of the obs-fold compaction were found). Body-reader error verdicts other than too-large are not claimed "
+     "stable (a stream cut inside a chunk-size line is 'bad' only because it ended there).")
+_upd("C03", "Also proved for all inputs: every chunk size the reader accepts is below 2^63 (parsed_chunk_size_is_int, over the regenerated "
+     "digit bound), and with a body limit configured no request whose body exceeds it ever reaches a handler (oversize_never_handled).")
+_upd("C04", "The end-to-end statement is proved (response_decodes): for every header state the setters can reach, every body kind, HEAD or "
+     "not, every trailer and every following bytes, the strict decoder applied to the written message returns exactly the status, the kept "
+     "fields and the body, and leaves the following bytes untouched (also two_responses_decode; decimal AppendUint round trip).",
+     "Open: the single end-to-end decode statement joining head and body theorems (checked per case).",
+     "Excluded by explicit hypotheses, each with a witness theorem replayed on the real server: the hijacked chunked writer on a HEAD answer "
+     "(documented exclusion), status codes outside 100..999 (written verbatim), body streams shorter than declared. A handler setting "
+     "Content-Length after SetBodyStream(r,-1) used to produce both framings: repaired in /repo (db53447).")
+_upd("C06", "Acceptance is proved order independent as well (accepted_iff: a list is accepted iff every registration is valid and no two share "
+     "method and parameter-name-erased pattern; accepted_order_independent; route_set_semantics joins acceptance and dispatch).",
+     "Open: order independence of *acceptance* is checked differentially only.",
+     "Which registration of a conflicting set is refused, and with which class, does depend on order (refusal_class_depends_on_order), as in the code.")
+_upd("C07", "Equality of the normalizePath model with the decode-once-then-resolve-with-a-stack reference (normalize_eq_reference) and "
+     "containment of the CleanPath model (cleanPath_contained) are proved for every byte string.",
+     "Not proved: equality with the stack reference (checked per case), CleanPath containment (checked per case).",
+     "No functional reference is stated for CleanPath (containment only).")
+_upd("C10", "Proved in addition: every event the sequential simulator emits is accepted, for every script (seq_program_accepted); on a wire "
+     "refinement of the pool machine (per-connection queues of written requests and unread answers, peer answering in order and only when "
+     "asked) the response a caller reads is the answer to the request that caller wrote on that connection (response_belongs_to_caller), a "
+     "pooled connection has an empty wire (pooled_connection_wire_empty); the honest-peer assumption is necessary (peer_assumption_needed).",
+     "Response-belongs-to-caller and the timeout bound are runtime checks in the harness (echoed request id, exclusive-use flag, duration), not Lean theorems.",
+     "The client-side guards of the wire refinement are read off doNonNilReqResp and are not trace-validated (hook H2 records lock regions "
+     "only); the harness keeps checking the echoed request id per call. The timeout bound is a runtime check.")
+_upd("C11", "Proved for all inputs: the response reader model applied to the writer model's bytes returns status, fields, body and trailers "
+     "and leaves the following bytes (response_roundtrip, response_roundtrip_trailers); the strict request decoder applied to the request "
+     "writer's bytes returns method, target, fields, body and trailers (request_decodes); the 15-digit chunk-size bound is tight "
+     "(chunk_size_limit_tight).")
+_upd("C13", "Also proved: every model run is accepted by the control acceptor (Len/size/error-justification rules: refines_fifo_ctl), and the "
+     "pointer-level form of peek stability (peek_in_block, peeked_slice_unchanged, block_ids_distinct).")
+_upd("C14", "The chunked counterparts are proved for every chunking, hex spelling and read plan: bytes read are a prefix of the de-chunked "
+     "body (chunked_reads_prefix, chunked_reads_all), after the handler stops the connection is closed or positioned exactly behind the "
+     "trailer section (chunked_resync_exact), a read error closes the connection and nothing after it is parsed (stream_error_closes, "
+     "nothing_after_stream_error). This proof found the '0'-named trailer defect repaired in /repo (f1dae26).",
+     "chunked-body theorems are open and covered per case.",
+     "trailer lines with a leading blank (obs-fold) on the read-to-the-end path are outside the chunked theorems.")
+_upd("C15", "The refinement to the declarative specification is proved (bind_refines_spec_partial: model = spec for every field list and "
+     "request outside the known-finding classes, for fields not named '-' whose tag keys are distinct), with its ingredients "
+     "(header_key_normalisation, first_source_is_first_hit, prebind_is_json_value).",
+     "Open: refinement theorem model = declarative spec outside the known-finding classes (checked per case).",
+     "A repeated tag key (query:\"-\" query:\"a\") reaches the known finding dash-only-default through a shadowed tag; the generator emits no repeated keys.")
+_upd("C16", "Proved in addition, for both naming styles: interpreting the generated Register registers exactly the declared routes with "
+     "every wrapping group on the path (register_denotes_declared_routes), one group per prefix under sort-router "
+     "(register_denotes_sorted), variables pairwise distinct, every middleware called is declared, and identifiers stay distinct through an "
+     "update in camel style.",
+     "Open (checked per case, not proved): denotation theorem interp(stmts tree) = routes of tree with ancestor chains; one-group-per-prefix under sort-router; identifier distinctness for camel-style updates.",
+     "Open: sorted coverage for methods with an empty verb; completeness of middleware functions after an update of a user-edited file.")
+_upd("C17", "URI and cookie round trips are proved for all inputs: parsing FullURI() of a URI built from components gives back scheme, host, "
+     "path, query and fragment and formatting again is a fixed point (uri_roundtrip, uri_fixed_point), except exactly when the fragment holds "
+     "a control byte, where everything is lost (uri_fragment_ctl_loses_everything, the known finding); parsing a serialised response cookie "
+     "returns key, value and all attributes (cookie_roundtrip_partial; the entirely empty cookie serialises to the empty string).",
+     "their Lean theorems are open.", "agreement with net/url and cookie expiry (Go's time formatting) are compared, not proved.")
+_upd("C18", "Four clauses of the trace specification the driver evaluates on the real server are proved empty for every run of the model "
+     "(close-after-shutdown in ghost-free trace form, no accept after shutdown, second shutdown errors, in-flight requests complete).",
+     "Open: model-run => trace-spec theorem; ghost-free trace form of close_after_shutdown.",
+     "Open: the spurious-close, hooks-run, bounded and prompt clauses of the trace spec for model runs; liveness under fairness.")
+_upd("C19", "The byte-stream classifier is proved to refine the keep-alive loop model on their common ground (classify_refines_serve), so for "
+     "every byte stream there is exactly one Start/Finish pair per handled request of the loop model and at most one more for an exchange "
+     "that failed before the handler (tracer_pairs_per_request).",
+     "Open: theorem linking the byte-stream classifier to the keep-alive loop model (both are compared with the real server instead).",
+     "Outside the common ground of the two models: hijack, unwinding panic, write errors, handler-initiated close, return-to-poller idle style.")
+_upd("C20", "Absence of panics is proved for whole expressions: the parser never panics, never runs out of fuel and builds precedence trees "
+     "also inside groups and function arguments (parse_builds_precedence_trees), and validation of an expression whose tree shows no missing "
+     "operand never panics (validate_no_panic_complete); the one remaining panic site is an operator without its right operand inside a "
+     "group or argument (developer-written tag text; validate_no_panic).",
+     "its lifting through the parser's recursion to whole expressions is open (TODO-OPEN in Props/C20.lean) and is covered by the differential runs.",
+     "a purely lexical description of 'no missing operand' is not given (the condition is stated on the rendering of the compiled tree).")
